@@ -166,12 +166,12 @@ static void fill_operands(Rng &r, Op &o, unsigned bias, bool streams) {
 static bool corruptible(uint16_t k) {
     switch (k) {
     case S_CONSTRUCT: case S_FROM: case S_ASSIGN: case S_SET: case S_APPEND: case S_APPEND_CH: case S_PLUS: case S_PLUS_CH:
-    case S_REPLACE: case S_SPLIT: case S_FORMAT: case S_STFMT: case S_ISTREAM: case S_DECODE: case SS_SHL_TEXT: case SS_APPEND: case B_NEW_PTRLEN:
+    case S_REPLACE: case S_SPLIT: case S_FORMAT: case S_STFMT: case S_ISTREAM: case S_DECODE: case SS_SHL_TEXT: case SS_APPEND: case B_NEW_PTRLEN: case S_PATH:
         return true;
     default: return false;
     }
 }
-static bool alloc_faultable(uint16_t k) { return k != S_ISTREAM && k != S_OSTREAM; }
+static bool alloc_faultable(uint16_t) { return true; }      // (stream extraction / insertion place their faults themselves: ops_str_a.cpp, ops_str_b.cpp)
 
 struct FamW { int w[FAM__COUNT]; };
 //                        BC BA BR BD  MC MA MT MM MS MD  SC SM SS SD SX VV BV
